@@ -286,6 +286,10 @@ pub fn plain_expressible(text: &str) -> bool {
 /// Document path: render a one-pair mapping `k: <tag> <scalar>` and load it.
 pub fn render_doc(text: &str, style: ScalarStyle, tag: TagK) -> Option<String> {
     let t = tag.text();
+    // the simple one-line renderings below cannot express breaks, control characters or a BOM
+    if text.chars().any(|c| (c < ' ' && c != '\t') || c == '\u{7f}' || c == '\u{feff}' || (style == ScalarStyle::Plain && c == '\t')) {
+        return None;
+    }
     Some(match style {
         ScalarStyle::Plain => {
             if !plain_expressible(text) {
@@ -397,8 +401,8 @@ fn check_text_doc(ctx: &mut Ctx, text: &str) {
 // ---- random texts ------------------------------------------------------------------------------
 
 fn number_template() -> impl Strategy<Value = String> {
-    let sign = prop_oneof![Just(""), Just("-"), Just("+")];
-    let digits = prop_oneof![
+    let sign = crate::oneof![Just(""), Just("-"), Just("+")];
+    let digits = crate::oneof![
         "[0-9]{1,4}",
         "[0-9]{17,21}",
         Just("9223372036854775807".to_string()),
@@ -412,9 +416,9 @@ fn number_template() -> impl Strategy<Value = String> {
         ("0{1,30}", "[0-9]{1,19}").prop_map(|(z, d)| format!("{z}{d}")),
         ("0{15,40}", "[1-9]?").prop_map(|(z, d)| format!("{z}{d}"))
     ];
-    let frac = prop_oneof![Just("".to_string()), Just(".".to_string()), "\\.[0-9]{1,18}"];
-    let exp = prop_oneof![Just("".to_string()), "[eE][-+]?[0-9]{1,3}", Just("e".to_string()), Just("e+".to_string())];
-    let junk = prop_oneof![8 => Just(""), 1 => Just("_"), 1 => Just("x"), 1 => Just(" "), 1 => Just("-"), 1 => Just("+")];
+    let frac = crate::oneof![Just("".to_string()), Just(".".to_string()), "\\.[0-9]{1,18}"];
+    let exp = crate::oneof![Just("".to_string()), "[eE][-+]?[0-9]{1,3}", Just("e".to_string()), Just("e+".to_string())];
+    let junk = crate::oneof![8 => Just(""), 1 => Just("_"), 1 => Just("x"), 1 => Just(" "), 1 => Just("-"), 1 => Just("+")];
     (sign, digits, frac, exp, junk, 0usize..4).prop_map(|(s, d, f, e, j, pos)| {
         let mut parts = vec![s.to_string(), d, f, e];
         parts.insert(pos.min(4), j.to_string());
@@ -423,8 +427,8 @@ fn number_template() -> impl Strategy<Value = String> {
 }
 
 fn radix_template() -> impl Strategy<Value = String> {
-    let pre = prop_oneof![Just("0x"), Just("0o"), Just("0X"), Just("0O"), Just("-0x"), Just("+0o"), Just("0b")];
-    let body = prop_oneof![
+    let pre = crate::oneof![Just("0x"), Just("0o"), Just("0X"), Just("0O"), Just("-0x"), Just("+0o"), Just("0b")];
+    let body = crate::oneof![
         "[0-9a-fA-F]{1,6}",
         "[0-7]{1,8}",
         Just("7fffffffffffffff".to_string()),
@@ -443,7 +447,7 @@ fn radix_template() -> impl Strategy<Value = String> {
 }
 
 fn word_template() -> impl Strategy<Value = String> {
-    prop_oneof![
+    crate::oneof![
         proptest::sample::select(vec![
             "null", "Null", "NULL", "nULL", "~", "~~", "true", "True", "TRUE", "tRUE", "false", "False", "FALSE", "yes", "Yes", "no", "No", "on", "off",
             "y", "n", ".inf", ".Inf", ".INF", "-.inf", "+.inf", ".iNF", "inf", "Inf", "INF", "-inf", "+inf", "infinity", "Infinity", "-Infinity", ".nan",
@@ -459,7 +463,7 @@ fn word_template() -> impl Strategy<Value = String> {
 }
 
 pub fn random_text() -> impl Strategy<Value = String> {
-    prop_oneof![3 => number_template(), 2 => radix_template(), 3 => word_template()]
+    crate::oneof![3 => number_template(), 2 => radix_template(), 3 => word_template()]
 }
 
 fn exh_len(tier: Tier) -> u32 {
